@@ -82,7 +82,8 @@ def gen_resume(rnd):
     dt = scn["options"]["dt_init"]
     scn["meta"]["steps"] = N
     off = [rnd.choice([0.0, 0.0, 0.5, 0.3, 0.9]) for _ in range(3)]
-    return {"mode": "resume", "off": off, "base": scn, "N": N, "N1": N1, "k2": rnd.choice([1, 2, 100]), "options": scn["options"], "device": scn["device"], "drive": scn["drive"], "faults": []}
+    look = rnd.sample(["plot_scalar_potential", "plot_order_parameter", "plot_currents", "plot_vorticity", "current_density", "field"], rnd.choice([1, 2, 3])) if rnd.random() < 0.3 else None
+    return {"mode": "resume", "off": off, "look_at_seed": look, "base": scn, "N": N, "N1": N1, "k2": rnd.choice([1, 2, 100]), "options": scn["options"], "device": scn["device"], "drive": scn["drive"], "faults": []}
 
 
 def traj(h):
@@ -220,6 +221,34 @@ def run_resume(scn):
         except Exception as e:
             V.append(Violation("reload-failed", f"the saved final state cannot be loaded: {type(e).__name__}: {str(e)[:100]}"))
             seed = None
+        if seed is not None and scn.get("look_at_seed"):
+            # the user looks at the saved state before continuing from it (plots, derived quantities):
+            # looking is observing, it must leave the state the continuation starts from untouched
+            names_ = ("psi", "mu", "supercurrent", "normal_current", "induced_vector_potential")
+            snap_ = {n_: np.array(getattr(seed.tdgl_data, n_), copy=True) for n_ in names_}
+            try:
+                import matplotlib
+
+                matplotlib.use("Agg", force=True)
+                import matplotlib.pyplot as plt
+
+                for viewer in scn["look_at_seed"]:
+                    if viewer == "current_density":
+                        _ = seed.current_density
+                        _ = seed.supercurrent_density
+                    elif viewer == "field":
+                        _ = seed.field_at_position(np.array([[0.1, 0.2]]) * float(base_scn["device"]["layer"]["xi"]), zs=float(base_scn["device"]["layer"]["xi"]))
+                    else:
+                        getattr(seed, viewer)()
+                    plt.close("all")
+            except Exception as e:
+                tb_ = __import__("traceback").extract_tb(e.__traceback__)
+                if not any("/tdgl/" in f_.filename for f_ in tb_):
+                    raise
+                # viewers that do not work in this environment (numpy / matplotlib versions) are outside C11
+            bad_ = [n_ for n_ in names_ if not aeq(np.asarray(getattr(seed.tdgl_data, n_)), snap_[n_])]
+            if bad_:
+                V.append(Violation("observation-changed-state", f"looking at the saved state ({', '.join(scn['look_at_seed'])}) changed {bad_} of the Solution the continuation starts from", quantity=bad_[0]))
         if seed is not None:
             s2 = copy.deepcopy(base_scn)
             s2["options"]["solve_time"] = scen.seq_sum([dt] * N2) - off[2] * dt
